@@ -328,11 +328,11 @@ Section VecExtra.
       + rewrite I1. cbn [total_dim fold_right]. fold (total_dim r). lia.
       + rewrite I4, app_length. unfold shift at 1. rewrite map_length. unfold sp_nnz at 2. lia.
       + intros i. rewrite I5, (psum_app o L), (esum_shift o). cbn [Nat.leb andb]. rewrite Nat.sub_0_r, andb_true_r.
-        fold (entry o v (i - d0) 0). fold (ventry o v (i - d0)).
+        rewrite <- (entry_psum o v). unfold ventry.
         destruct (Nat.leb_spec d0 i) as [H1|H1].
         * destruct (Nat.ltb_spec (i - d0) (sp_m v)) as [H2|H2]; destruct (Nat.leb_spec (d0 + sp_m v) i) as [H3|H3]; try lia.
           -- ring.
-          -- unfold ventry. rewrite (entry_outside o v (i - d0) 0 Wv) by lia.
+          -- rewrite (entry_outside o v (i - d0) 0 Wv) by lia.
              replace (i - (d0 + sp_m v))%nat with (i - d0 - sp_m v)%nat by lia. ring.
         * destruct (Nat.leb_spec (d0 + sp_m v) i); [lia|]. ring.
   Qed.
@@ -356,3 +356,200 @@ Section VecExtra.
     - unfold sp_nnz at 1. cbn [sp_st]. rewrite I4. reflexivity.
   Qed.
 End VecExtra.
+
+(* ---------- transforms: the statement of the property for every history ---------- *)
+Section TransMain.
+  Context {R : Type} (o : ring_ops R) (L : ring_laws o).
+  Local Notation spmat := (spmat R).
+  Local Notation sp_wf := (@sp_wf R).
+  Local Notation sp_is := (sp_is o).
+  Local Notation sv_is := (sv_is o).
+
+  (* what is observable of a transform that denotes (F, B) : src <-> tgt *)
+  Definition tr_acts (t : trans R) (src tgt : nat) (F B : mat R) : Prop :=
+    t_src t = src /\ t_tgt t = tgt /\
+    (exists Fm Bm, tr_forward_mat o t = Some Fm /\ tr_backward_mat o t = Some Bm /\
+                   sp_is Fm tgt src F /\ sp_is Bm src tgt B) /\
+    (forall v, sp_wf v -> sp_n v = 1%nat ->
+       match tr_forward o t v with
+       | Some w => sv_dim v = src /\ sv_is w tgt (mvec o src F (ventry o v))
+       | None => sv_dim v <> src
+       end) /\
+    (forall v, sp_wf v -> sp_n v = 1%nat ->
+       match tr_backward o t v with
+       | Some w => sv_dim v = tgt /\ sv_is w src (mvec o tgt B (ventry o v))
+       | None => sv_dim v <> tgt
+       end).
+
+  Lemma denotes_acts t h : denotes o t h -> tr_acts t (hsrc h) (htgt h) (hF o h) (hB o h).
+  Proof.
+    intros (D1 & D2 & D3 & D4 & D5). unfold tr_acts. splits; try assumption.
+    - destruct (tr_forward_mat_spec o L t D1) as [Fm [EF HF]]. destruct (tr_backward_mat_spec o L t D1) as [Bm [EB HB]].
+      exists Fm, Bm. rewrite D2, D3 in *. splits; try assumption.
+      + eapply sp_is_ext; [exact HF|exact D4].
+      + eapply sp_is_ext; [exact HB|exact D5].
+    - intros v Wv Nv. pose proof (tr_forward_spec o L t v D1 Wv Nv) as S. destruct (tr_forward o t v) as [w|].
+      + destruct S as (E & S). rewrite D2, D3 in *. split; [exact E|].
+        eapply sv_is_ext; [exact S|]. intros i Hi. apply mvec_ext; intros k Hk; [now apply D4|reflexivity].
+      + now rewrite <- D2.
+    - intros v Wv Nv. pose proof (tr_backward_spec o L t v D1 Wv Nv) as S. destruct (tr_backward o t v) as [w|].
+      + destruct S as (E & S). rewrite D2, D3 in *. split; [exact E|].
+        eapply sv_is_ext; [exact S|]. intros i Hi. apply mvec_ext; intros k Hk; [now apply D5|reflexivity].
+      + now rewrite <- D3.
+  Qed.
+
+  (* MAIN: every finite history of new / append / append_perm / merge / reduce / sub either hits a guard
+     (exactly when [hist_ok] fails) or builds a transform t such that
+       - forward_mat(t) and backward_mat(t) are the products the history denotes,
+       - forward(v) = F v and backward(v) = B v for every vector (and panic exactly on a wrong dimension),
+       - reduce() succeeds and the reduced transform has the same four observables. *)
+  Theorem tr_history_main h : hist_wf h ->
+    match tr_run o h with
+    | Some t =>
+        hist_ok o h /\ tr_wf t /\ tr_acts t (hsrc h) (htgt h) (hF o h) (hB o h) /\
+        exists t', tr_reduce o t = Some t' /\ tr_wf t' /\ tr_acts t' (hsrc h) (htgt h) (hF o h) (hB o h)
+    | None => ~ hist_ok o h
+    end.
+  Proof.
+    intros W. pose proof (tr_run_spec o L h W) as S. destruct (tr_run o h) as [t|] eqn:E; [|exact S].
+    destruct S as (Ok & D). split; [exact Ok|]. split; [now destruct D|]. split; [now apply denotes_acts|].
+    pose proof (tr_run_spec o L (HReduce h) W) as S'. cbn [tr_run] in S'. rewrite E in S'. cbn [obind] in S'.
+    destruct (tr_reduce o t) as [t'|]; [|exfalso; now apply S'].
+    destruct S' as (_ & D'). exists t'. split; [reflexivity|]. split; [now destruct D'|].
+    exact (denotes_acts t' (HReduce h) D').
+  Qed.
+
+  (* forward(v) = forward_mat() * v, as one statement about any history *)
+  Corollary tr_history_forward_is_mat h t v : hist_wf h -> tr_run o h = Some t ->
+    sp_wf v -> sp_n v = 1%nat -> sv_dim v = t_src t ->
+    exists w Fm, tr_forward o t v = Some w /\ tr_forward_mat o t = Some Fm /\
+                 sv_is w (t_tgt t) (mvec o (t_src t) (entry o Fm) (ventry o v)).
+  Proof.
+    intros W E Wv Nv Dv. pose proof (tr_run_spec o L h W) as S. rewrite E in S. destruct S as (_ & (D1 & _)).
+    pose proof (tr_forward_spec o L t v D1 Wv Nv) as S. destruct (tr_forward o t v) as [w|]; [|contradiction].
+    destruct (tr_forward_mat_spec o L t D1) as [Fm [EF (F1 & F2 & F3 & F4)]]. exists w, Fm.
+    splits; try reflexivity; try assumption. destruct S as (_ & S). eapply sv_is_ext; [exact S|].
+    intros i Hi. apply mvec_ext; intros k Hk; [|reflexivity]. symmetry. now apply F4.
+  Qed.
+
+  Corollary tr_history_backward_is_mat h t v : hist_wf h -> tr_run o h = Some t ->
+    sp_wf v -> sp_n v = 1%nat -> sv_dim v = t_tgt t ->
+    exists w Bm, tr_backward o t v = Some w /\ tr_backward_mat o t = Some Bm /\
+                 sv_is w (t_src t) (mvec o (t_tgt t) (entry o Bm) (ventry o v)).
+  Proof.
+    intros W E Wv Nv Dv. pose proof (tr_run_spec o L h W) as S. rewrite E in S. destruct S as (_ & (D1 & _)).
+    pose proof (tr_backward_spec o L t v D1 Wv Nv) as S. destruct (tr_backward o t v) as [w|]; [|contradiction].
+    destruct (tr_backward_mat_spec o L t D1) as [Bm [EB (B1 & B2 & B3 & B4)]]. exists w, Bm.
+    splits; try reflexivity; try assumption. destruct S as (_ & S). eapply sv_is_ext; [exact S|].
+    intros i Hi. apply mvec_ext; intros k Hk; [|reflexivity]. symmetry. now apply B4.
+  Qed.
+End TransMain.
+
+(* ---------- rings with laws: Q (canonical rationals) and Z/p (canonical residues) ---------- *)
+Definition Qc_ring : ring_ops Qc :=
+  mk_ring_ops Qc (Q2Qc 0%Q) (Q2Qc 1%Q) Qcplus Qcopp Qcmult Qc_eq_bool.
+
+Lemma Qc_ring_laws : ring_laws Qc_ring.
+Proof.
+  constructor; cbn.
+  - apply Qcplus_comm.
+  - apply Qcplus_assoc.
+  - apply Qcplus_0_l.
+  - apply Qcplus_opp_r.
+  - apply Qcmult_comm.
+  - apply Qcmult_assoc.
+  - apply Qcmult_1_l.
+  - apply Qcmult_plus_distr_l.
+  - intros a b. split; [apply Qc_eq_bool_correct|]. intros ->. unfold Qc_eq_bool.
+    destruct (Qc_eq_dec b b) as [_|N]; [reflexivity|now elim N].
+Qed.
+
+Section Fp.
+  Context (p : Z).
+  Local Open Scope Z_scope.
+
+  Definition fp : Type := { x : Z | (x mod p =? x) = true }.
+  Definition fp_val (a : fp) : Z := proj1_sig a.
+
+  Lemma fp_eq (a b : fp) : fp_val a = fp_val b -> a = b.
+  Proof.
+    destruct a as [x Hx], b as [y Hy]. cbn. intros ->. f_equal. apply UIP_dec, bool_dec.
+  Qed.
+
+  Lemma fp_red (a : fp) : fp_val a mod p = fp_val a.
+  Proof. destruct a as [x Hx]. cbn. now apply Z.eqb_eq. Qed.
+
+  Definition fp_mk (x : Z) : fp.
+  Proof. exists (x mod p). apply Z.eqb_eq. apply Zmod_mod. Defined.
+
+  Lemma fp_val_mk x : fp_val (fp_mk x) = x mod p.
+  Proof. reflexivity. Qed.
+
+  Definition Fp_ring : ring_ops fp :=
+    mk_ring_ops fp (fp_mk 0) (fp_mk 1)
+      (fun a b => fp_mk (fp_val a + fp_val b)) (fun a => fp_mk (- fp_val a))
+      (fun a b => fp_mk (fp_val a * fp_val b)) (fun a b => fp_val a =? fp_val b).
+
+  Lemma Fp_ring_laws : ring_laws Fp_ring.
+  Proof.
+    constructor; intros; cbn [Fp_ring rzero rone radd rneg rmul reqb]; try apply fp_eq; rewrite ?fp_val_mk.
+    - f_equal. apply Z.add_comm.
+    - rewrite Zplus_mod_idemp_r, Zplus_mod_idemp_l. f_equal. apply Z.add_assoc.
+    - rewrite Zplus_mod_idemp_l, Z.add_0_l. apply fp_red.
+    - rewrite Zplus_mod_idemp_r. f_equal. apply Z.add_opp_diag_r.
+    - f_equal. apply Z.mul_comm.
+    - rewrite Zmult_mod_idemp_r, Zmult_mod_idemp_l. f_equal. apply Z.mul_assoc.
+    - rewrite Zmult_mod_idemp_l, Z.mul_1_l. apply fp_red.
+    - rewrite Zmult_mod_idemp_l, <- Zplus_mod. f_equal. apply Z.mul_add_distr_r.
+    - rewrite Z.eqb_eq. split; [apply fp_eq|now intros ->].
+  Qed.
+End Fp.
+
+(* ---------- the predicates used in the statements, unfolded (for the reader of Properties/C13.v) ---------- *)
+Lemma sp_is_unfold {R} (o : ring_ops R) (a : spmat R) m n f :
+  sp_is o a m n f <->
+  sp_m a = m /\ sp_n a = n /\ sp_wfb a = true /\ forall i j, i < m -> j < n -> entry o a i j = f i j.
+Proof. reflexivity. Qed.
+
+Lemma sv_is_unfold {R} (o : ring_ops R) (v : spmat R) d f :
+  sv_is o v d f <->
+  sp_m v = d /\ sp_n v = 1 /\ sp_wfb v = true /\ forall i j, i < d -> j < 1 -> entry o v i j = f i.
+Proof. reflexivity. Qed.
+
+Lemma d_is_unfold {R} (o : ring_ops R) (A : dmat R) m n f :
+  d_is o A m n f <->
+  dm A = m /\ dn A = n /\ (length (dd A) = dm A /\ Forall (fun r => length r = dn A) (dd A)) /\
+  forall i j, i < m -> j < n -> d_get o A i j = f i j.
+Proof. reflexivity. Qed.
+
+Lemma vec_wf_unfold {R} (v : spmat R) : vec_wf v <-> sp_wfb v = true /\ sp_n v = 1.
+Proof. reflexivity. Qed.
+
+Lemma sorted_klt_unfold {R} (l : list (ent R)) :
+  StronglySorted klt l <->
+  StronglySorted (fun e e' => e_col e < e_col e' \/ (e_col e = e_col e' /\ e_row e < e_row e')) l.
+Proof.
+  split; intros H.
+  - induction H as [|x r S IH F]; constructor; [exact IH|]. rewrite Forall_forall in *. intros y Hy.
+    specialize (F y Hy). unfold klt in F. now apply key_lt_spec in F.
+  - induction H as [|x r S IH F]; constructor; [exact IH|]. rewrite Forall_forall in *. intros y Hy.
+    unfold klt. apply key_lt_spec. now apply F.
+Qed.
+
+Lemma sp_wf_unfold {R} (a : spmat R) :
+  sp_wf a <->
+  (forall e, In e (sp_st a) -> e_row e < sp_m a /\ e_col e < sp_n a) /\
+  StronglySorted (fun e e' => e_col e < e_col e' \/ (e_col e = e_col e' /\ e_row e < e_row e')) (sp_st a).
+Proof. now rewrite sp_wf_iff, in_bounds_iff, sorted_klt_unfold. Qed.
+
+Lemma is_perm_unfold (p : perm) : C13Sparse.is_perm p <-> NoDup p /\ forall x, In x p -> x < length p.
+Proof. reflexivity. Qed.
+
+Lemma entry_unfold {R} (o : ring_ops R) (L : ring_laws o) (a : spmat R) i j : sp_wf a ->
+  (exists v, In (i, j, v) (sp_st a) /\ entry o a i j = v) \/
+  ((forall v, ~ In (i, j, v) (sp_st a)) /\ entry o a i j = rzero o).
+Proof. apply (entry_cases o L). Qed.
+
+(* non-vacuity of the well-formedness predicates: the matrices [[1, 0s], [-, 2]] - [[1, 0s], [-, 2]] etc. *)
+Definition ex_a : spmat Z := mksp 2 2 [(0, 0, 1%Z); (0, 1, 0%Z); (1, 1, 2%Z)].   (* a stored zero at (0,1) *)
+Definition ex_e : spmat Z := mksp 0 3 [].                                        (* no rows *)
